@@ -141,10 +141,13 @@ def work(item):
     forms = [(0, 'GetExpectationValueD(op,irho,x)', 0), (1, 'GetExpectationValueD(op,irho,x,buffer)', 0), (4, 'GetIntermediateState(irho,x)', 0),
              (0, 'GetExpectationValueD(op,irho,x) after a call on an object of another dimension (thread-local scratch)', 3 if d != 3 else 2)]
     forms += [(2, 'GetExpectationValueD(op,irho,x,scale,avr)', 0), (3, 'GetExpectationValueD(op,irho,x,buffer,scale,avr)', 0)]
+    if nrho > 1:
+        # state surviving in a scratch buffer: the same query for the other density matrix (same object, x, t, scale, same buffer) comes first
+        forms += [(w_, nm_ + ' after the same call for another rho index (same scratch buffer)', 99) for w_, nm_, d0_ in list(forms) if w_ in (1, 2, 3) and d0_ == 0]
     for which, nm, d0 in forms:
         avg = which in (2, 3)
         ps = run('h_expectD', [I(which), I(nx), I(d), I(nrho), I(irho), Buf('xs', xs), Buf('st', st), Buf('op', op), D(x), D(t), D(ti), D(scale), I(d0), Buf('out', n=n), IBuf('flags', [None] * npairs)], merge=avg)
-        key = 'interp:%d:d=%d' % (which, d) + (':d0' if d0 else '')
+        key = 'interp:%d:d=%d' % (which, d) + ((':d0=%d' % d0) if d0 else '')
         okform = True
         for p in ps:
             if p.status != 'ok' or p.ret not in (0, 1):
@@ -329,7 +332,7 @@ def main(tier):
         items = [(d, nx, 1 + (nx == 3), tier) for d in (2, 3, 4, 5, 6) for nx in (2, 3, 4, 5)]
     chk.cov['bounds'] = {'configurations (d, nx, nrho)': [list(i[:3]) for i in items], 'grid': 'user grid installed through Set_xrange(vector): nx symbolic strictly increasing nodes',
                          'inputs': 'x, t, t_ini, all states, the operator symbolic; H0(x,irho): diagonal operator whose entries are uninterpreted functions of x (per irho, per generator)',
-                         'history': 'one variant runs a query on another object of another dimension first (thread-local buffer); the node-indexed form is also asked of a solver that received the problem by move assignment (into an object initialised with t_ini = 0 and another shape) or move construction'}
+                         'history': 'one variant runs a query on another object of another dimension first (thread-local buffer); with nrho>1 the buffered and averaging overloads are also run after the same call for the other rho index on the same buffer; the node-indexed form is also asked of a solver that received the problem by move assignment (into an object initialised with t_ini = 0 and another shape) or move construction'}
     chk.cov['domains'] = ['R (exact reals); sin/cos atoms keyed by their argument terms; H0 entries as uninterpreted function applications']
     chk.cov['lemmas'] = ['sin/cos atoms with equal argument polynomials are identified (parity: sin(-a) = -sin a, cos(-a) = cos a)', 'otherwise none beyond congruence: both sides apply the same kernels to the same symbolic arguments, so agreement is a polynomial identity; what is decided is the glue (node, H0 argument, time difference, weights, bracket, range)',
                          'Tr(rho_S O) = Tr(rho . e^{iH0 tau} O e^{-iH0 tau}) (cyclicity of the trace; conjugation is C03)']
